@@ -194,6 +194,17 @@ def cr_producer(case, ctx):
         stack.callback(lambda: setattr(cc, "validate_pixels", real))
     elif fault["kind"] in CRASHES:
         stack.enter_context(patched(*CRASHES[fault["kind"]]))
+    if fault["kind"] == "invalid_source":
+        # the SOURCE collection itself holds an invalid pixel (it was stored with the checks switched off): a lower-triangle
+        # pixel in a symmetric-upper collection, a bin beyond the table otherwise; the producers validate what they write
+        n = len(table)
+        # (coarsening may fold a lower-triangle pixel into a valid coarse pixel, so the coarsener always gets a bin beyond the
+        #  table; one valid pixel makes room: the pixel table is sized for the possible pixels)
+        bad = [1, 0, 1] if symm and case["producer"] == "merge" else [0, n, 1]
+        rows = sorted([p for p in case["px"][1:] if p[:2] != bad[:2]] + [bad])
+        cooler.create_cooler(src, bins, gen.pixels_frame(rows), ordered=True, symmetric_upper=symm,
+                             boundscheck=False, triucheck=False, dupcheck=False)
+        FIRED.append("invalid_source")
     try:
         with stack:
             prod = case["producer"]
